@@ -890,6 +890,7 @@ def run(ctx: Ctx, rep: Report, tier: str) -> None:
     from .c01 import classification_guards
 
     classification_guards(ctx, rep, rid="R03.17")
+    cover_sets_not_edited(ctx, rep)
     # R03.18 the flags the option cover test reads describe the option text the entry renders: a refused `option.line = ...`
     # changes neither (text stored before the word test = new text over the old flags; `permit tcp any any syn` is then
     # reported in the shadow of an entry that renders `... ack time-range WORK`)
@@ -957,6 +958,52 @@ def address_answers(ctx: Ctx, rep: Report, helpers: Dict[str, Optional[Func]], r
             else:
                 rep.violation(h.qualname, snippet(r.ast), "a positive address answer that is not the answer of the network containment test (equal text or equal group name does not mean equal networks)", where(h, r.ast), inp="two object-groups with the same name and different members")
     rep.floor(2, "answers of the address cover helpers")
+
+
+_MUTATORS = {"discard", "remove", "add", "update", "pop", "clear", "difference_update", "intersection_update", "symmetric_difference_update", "append", "extend", "insert", "sort", "reverse", "popitem", "setdefault"}
+
+
+def cover_sets_not_edited(ctx: Ctx, rep: Report, rid: str = "R03.22") -> None:
+    """The cover tests compare the sets the two entries denote - ports, flags, networks - as they are: between the
+    binding of a local that holds such a set and the test that reads it, nothing edits the set in place (`discard`,
+    `remove`, `add`, `-=`, `del x[i]`, `x[i] = ...`).  An "equivalence" applied to one side only (`established` dropped
+    from the lower entry's flags when the upper one tests `ack`) makes the comparison answer for another entry."""
+    rep.rule(rid)
+    ace = ctx.cls("Ace")
+    funcs = [m for nm, m in ace.methods.items() if nm.startswith("_shadow_of__") or nm == "shadow_of"]
+    for q in ("helpers.subnet_of",):
+        g = ctx.prog.find_func(q)
+        if g is not None:
+            funcs.append(g)
+    n = 0
+    for f in funcs:
+        n += 1
+        rep.instance()
+        locals_ = {x.id for x in own_nodes(f.node) if isinstance(x, ast.Name) and isinstance(x.ctx, ast.Store)}
+        # a local bound to a display written in the function (an accumulator, a table of checks) is its own construction
+        acc = set()
+        for x in own_nodes(f.node):
+            if isinstance(x, (ast.Assign, ast.AnnAssign)) and x.value is not None:
+                tg = x.targets[0] if isinstance(x, ast.Assign) else x.target
+                if isinstance(tg, ast.Name) and (isinstance(x.value, (ast.List, ast.Set, ast.Dict, ast.Tuple)) or (isinstance(x.value, ast.Call) and src(x.value.func) in ("set", "list", "dict") and not x.value.args)):
+                    acc.add(tg.id)
+        bad = None
+        for x in own_nodes(f.node):
+            nm = None
+            if isinstance(x, ast.Call) and isinstance(x.func, ast.Attribute) and x.func.attr in _MUTATORS and isinstance(x.func.value, ast.Name):
+                nm = x.func.value.id
+            elif isinstance(x, ast.AugAssign) and isinstance(x.target, ast.Name) and isinstance(x.op, (ast.Sub, ast.BitOr, ast.BitAnd, ast.BitXor)):
+                nm = x.target.id
+            elif isinstance(x, (ast.Subscript,)) and isinstance(x.ctx, (ast.Store, ast.Del)) and isinstance(x.value, ast.Name):
+                nm = x.value.id
+            if nm is not None and (nm in locals_ or nm in f.params) and nm not in acc:
+                bad = (x, nm)
+                break
+        if bad is not None:
+            rep.violation(f.qualname, snippet(bad[0], 60), f"`{bad[1]}`, one of the sets the cover test compares, is edited in place before the comparison: the test no longer answers for the entries as they are written (a flag, port or network dropped from one side only)", where(f, bad[0]), inp="permit tcp any any ack  /  permit tcp any any established  ->  the second is reported shadowed and deleted")
+        else:
+            rep.ok(f.qualname, "the compared sets are read as they were bound (no in-place edit)", nontrivial=False, where=where(f))
+    rep.floor(6, "cover helpers")
 
 
 def flags_rule(ctx: Ctx, rep: Report, h: Func) -> None:
